@@ -290,7 +290,8 @@ func numErrKind(r any) string {
 	case *interpreter.InvalidOperandsError, interpreter.InvalidOperandsError:
 		return "err:invalidoperands"
 	}
-	if e, ok := r.(error); ok && strings.Contains(fmt.Sprintf("%T", e), "UnreachableError") {
+	// errors.NewUnreachableError() is an UnexpectedError whose only distinguishing mark is its text
+	if e, ok := r.(error); ok && strings.Contains(fmt.Sprintf("%T", r), "UnexpectedError") && strings.Contains(e.Error(), "unreachable") {
 		return "err:unreachable"
 	}
 	return "panic"
